@@ -11,6 +11,10 @@ impl Task for B { type Output = u8; fn execute<C: Context>(&self, _c: &mut C) ->
 #[derive(Clone, PartialEq, Eq, Hash, Debug)] pub struct T1(pub (u8,));
 impl Task for T1 { type Output = u8; fn execute<C: Context>(&self, _c: &mut C) -> u8 { (self.0).0 } }
 
+/// field-less (zero-sized) key types: every value, boxed or referenced, may live at the same dangling address
+#[derive(Clone, PartialEq, Eq, Hash, Debug)] pub struct Z1;
+#[derive(Clone, PartialEq, Eq, Hash, Debug)] pub struct Z2;
+
 /// a hasher that records the byte stream it is fed (no SipHash in the solver)
 pub struct Rec { pub buf: [u8; 24], pub len: usize }
 impl Rec { pub fn new() -> Self { Rec { buf: [0; 24], len: 0 } } }
